@@ -7,3 +7,5 @@ import CheetahModel.Properties.C07
 #print axioms C07.tdc_zero_voltage_is_drift
 #print axioms C07.quad_body_flow
 #print axioms C07.quad_num_steps_independent
+#print axioms C07.drift_r56_closed
+#print axioms C07.drift_jacobian_is_linear_map
